@@ -74,7 +74,11 @@ pub fn render(t: i64, nanos: u32, off_min: i32, frac: usize, style: Style) -> St
     };
     let mut s = format!("{:04}-{:02}-{:02}{}{:02}:{:02}:{:02}", y, m, d, sep, hh, mm, ss);
     if frac > 0 {
-        let f = format!("{:09}", nanos);
+        let mut f = format!("{:09}", nanos);
+        // beyond nanoseconds (RFC 3339 sets no upper bound on the fraction): further digits derived from `nanos`
+        while f.len() < frac {
+            f.push(char::from(b'0' + ((nanos as usize / 7 + f.len() * 7) % 10) as u8));
+        }
         s.push('.');
         s.push_str(&f[..frac]);
     }
@@ -411,6 +415,19 @@ pub fn build_cases(prop: &str, tier: &str, seed: u64, pools: &Pools) -> Vec<Case
                     let nanos = (rng.next() % 1_000_000_000) as u32;
                     let class = if past { "strict-past" } else { "strict-future" };
                     cases.push(mk(p, Val::Time { when: When::Abs(t), nanos, off_min: off, frac, style: Style::Strict }, class, Val::Absent));
+                }
+            }
+        }
+    }
+    // fractions LONGER than nanoseconds (10..=40 digits; RFC 3339: time-secfrac = "." 1*DIGIT): the instant is the same to the
+    // nanosecond, the digit string overflows a u32 / u64 / u128 when read as one integer
+    for &p in &[P::V4L, P::V2L, P::V4P, P::V3L] {
+        for (when, past) in instants() {
+            for frac in [10usize, 11, 12, 15, 19, 20, 21, 30, 39, 40] {
+                for (off, style) in [(0, Style::StrictZ), (0, Style::Strict), (-480, Style::Strict), (330, Style::Strict), (0, Style::MinusZero)] {
+                    let nanos = (rng.next() % 1_000_000_000) as u32;
+                    let class = if past { "strict-past" } else { "strict-future" };
+                    cases.push(mk(p, Val::Time { when: when.clone(), nanos, off_min: off, frac, style }, class, Val::Absent));
                 }
             }
         }
@@ -795,4 +812,4 @@ pub fn replay(prop: &str, case: &Value) -> Report {
     r
 }
 
-pub const RULE: &str = "payloads {\"exp\"|\"nbf\": value} are crafted at the core layer and parsed with PasetoParser::default(). Values: 21 instants (now-2s, -1min, -1h, -1d, -1y, 2000-01-01, 1971; now+60s, +1h, +1d, +1y, 2999, 9000-01-01, and now + {2^31, 2^32 seconds, 2^63 ns -/+ 1 min, 475 y, 2^64 ns, 3170 y}; plus the edges of the four-digit-year range: 0000-01-01, 0000-12-31, 0001-01-01 and instants at / just beyond 9999-12-31T23:59:59Z rendered with the (negative) offsets that keep the local year at 9999) rendered by the harness's own calendar arithmetic with EVERY UTC offset -23:59..+23:59 x 0..9 fractional digits (strict grammar), 'Z', '-00:00' and lenient variants (space / 't' separators and 'z', each also combined with 'Z') — full space on v4.local (thorough: all four local protocols and v2/v4 public), 500 (thorough 60000) sampled renderings on each other protocol; a catalogue of ~90 non-timestamp values (numbers, booleans, arrays, objects, empty string, near-miss date strings — impossible months/days/hours, ISO 8601 forms that RFC 3339 excludes — each in the future (2999) and in the past (2001)) plus random text; null; absent; a sample of the strict cases and the grid once more with check_claim(<the token's own value>) registered on the default parser, and every 61st case of any class with check_claim on ANOTHER claim that the token satisfies (the time checks must still all apply); C12 additionally the 3x3 grid of (exp, nbf) in {past, future, absent} x 3 offsets. Plus a VIRTUAL-CLOCK sweep through the hook verif::set_now: 255 (thorough 3055) values of 'now' (year/leap-day boundaries, the last and first second of a minute / hour / day / month / year, 2^31/2^32 s, the i64-nanosecond limit 2262-04-11, up to year 8999, random, odd sub-second parts) x 27 distances from +-1 ns to +-950 years x sampled offsets, all with 9 fraction digits: exp accepted iff instant > now, nbf accepted iff instant < now (== now not decided). Plus clock-progress histories on all 8 protocols: a claim 1.5 s in the future is parsed, 2.6 s pass, and the SAME parser object (and a fresh one) must now give the opposite answer — also when the last parse before the pause was a REFUSED one (a clock reading kept from a failing parse must not judge the next). Oracle: instant known by construction; strict renderings and renderings with a ' ' separator (named in the property's quantifier) decide both ways, the other lenient renderings ('t', 'z') must merely never be accepted when out of window. distinct_nontrivial = distinct (protocol, outcome, class, instant, offset, fraction length, style) tuples";
+pub const RULE: &str = "payloads {\"exp\"|\"nbf\": value} are crafted at the core layer and parsed with PasetoParser::default(). Values: 21 instants (now-2s, -1min, -1h, -1d, -1y, 2000-01-01, 1971; now+60s, +1h, +1d, +1y, 2999, 9000-01-01, and now + {2^31, 2^32 seconds, 2^63 ns -/+ 1 min, 475 y, 2^64 ns, 3170 y}; plus the edges of the four-digit-year range: 0000-01-01, 0000-12-31, 0001-01-01 and instants at / just beyond 9999-12-31T23:59:59Z rendered with the (negative) offsets that keep the local year at 9999) rendered by the harness's own calendar arithmetic with EVERY UTC offset -23:59..+23:59 x 0..9 fractional digits (strict grammar; plus fractions of 10..40 digits on a sample of offsets), 'Z', '-00:00' and lenient variants (space / 't' separators and 'z', each also combined with 'Z') — full space on v4.local (thorough: all four local protocols and v2/v4 public), 500 (thorough 60000) sampled renderings on each other protocol; a catalogue of ~90 non-timestamp values (numbers, booleans, arrays, objects, empty string, near-miss date strings — impossible months/days/hours, ISO 8601 forms that RFC 3339 excludes — each in the future (2999) and in the past (2001)) plus random text; null; absent; a sample of the strict cases and the grid once more with check_claim(<the token's own value>) registered on the default parser, and every 61st case of any class with check_claim on ANOTHER claim that the token satisfies (the time checks must still all apply); C12 additionally the 3x3 grid of (exp, nbf) in {past, future, absent} x 3 offsets. Plus a VIRTUAL-CLOCK sweep through the hook verif::set_now: 255 (thorough 3055) values of 'now' (year/leap-day boundaries, the last and first second of a minute / hour / day / month / year, 2^31/2^32 s, the i64-nanosecond limit 2262-04-11, up to year 8999, random, odd sub-second parts) x 27 distances from +-1 ns to +-950 years x sampled offsets, all with 9 fraction digits: exp accepted iff instant > now, nbf accepted iff instant < now (== now not decided). Plus clock-progress histories on all 8 protocols: a claim 1.5 s in the future is parsed, 2.6 s pass, and the SAME parser object (and a fresh one) must now give the opposite answer — also when the last parse before the pause was a REFUSED one (a clock reading kept from a failing parse must not judge the next). Oracle: instant known by construction; strict renderings and renderings with a ' ' separator (named in the property's quantifier) decide both ways, the other lenient renderings ('t', 'z') must merely never be accepted when out of window. distinct_nontrivial = distinct (protocol, outcome, class, instant, offset, fraction length, style) tuples";
